@@ -14,7 +14,8 @@
 (*   SetEmpty changes nothing.                                             *)
 (***************************************************************************)
 EXTENDS Naturals, Integers, Sequences, FiniteSets, TLC, Json
-CONSTANTS MaxCols, MaxActions, Small, Emit
+CONSTANTS MaxCols, MaxActions, Small, Emit,
+          Tiny      \* TRUE: two plain ranged columns only (exhaustive life cycles of two-column tables incl. RemoveCols)
 
 Fields == IF Small THEN {"e", "c(x)"} ELSE {"a", "b", "e", "c(x)"}      \* "e" is an enum field (supports modifiers);
                                                                          \* "c(x)": a field name with parentheses (sql style)
@@ -22,7 +23,8 @@ Mods(f) == IF f = "e" THEN {"", "val", "name", "full"} ELSE {""}
 Ranges == IF Small THEN { <<3, 3>>, <<1, 6>> } ELSE { <<3, 3>>, <<0, 0>>, <<1, 6>>, <<2, 20>> }
 ColPool == { [f |-> f, mod |-> m, brk |-> b, min |-> r[1], max |-> r[2]] :
                  f \in Fields, m \in {"", "val", "name", "full"}, b \in BOOLEAN, r \in Ranges }
-Cols1 == { c \in ColPool : c.mod \in Mods(c.f) }
+Cols1 == IF Tiny THEN { [f |-> f, mod |-> "", brk |-> FALSE, min |-> 1, max |-> 6] : f \in {"e", "c(x)"} }
+         ELSE { c \in ColPool : c.mod \in Mods(c.f) }
 ColLists == UNION { [1 .. n -> Cols1] : n \in 1 .. MaxCols }
 LimitPool == { <<30, 20>>, <<1, 1>>, <<0, 2>>, <<2, 0>>, <<2, 2>>, <<-1, -1>> }        \* <<-1,-1>> = "*" (no limits)
 (* half-open pairs can only be given through the constructor argument limits=(n_first, n_last) with one None (-1):  *)
@@ -68,10 +70,17 @@ SetCols == /\ Can /\ n' = n + 1 /\ frozen' = FALSE /\ skipped' = "unknown"
 SetLimits == /\ Can /\ n' = n + 1 /\ frozen' = FALSE /\ skipped' = "unknown"
              /\ \E l \in LimitPool : limits' = l /\ hist' = Append(hist, [op |-> "setlimits", limits |-> l])
              /\ UNCHANGED cols
+(* table.remove_columns(<<field>>): every column showing that field goes; widths and limits stay as they are *)
+RemoveCols(f) == /\ Can /\ n' = n + 1
+                 /\ \E i \in 1 .. Len(cols) : cols[i].f = f
+                 /\ \E i \in 1 .. Len(cols) : cols[i].f # f            \* something remains
+                 /\ cols' = SelectSeq(cols, LAMBDA c : c.f # f)
+                 /\ hist' = Append(hist, [op |-> "removecols", f |-> f])
+                 /\ UNCHANGED <<limits, frozen, skipped>>
 Report == /\ n = MaxActions /\ n' = n + 1
           /\ Emit => PrintT(ToJson([hist |-> hist, final |-> Shape]))
           /\ UNCHANGED <<cols, limits, frozen, skipped, hist>>
-Next == DoPrint \/ SetSame \/ SetEmpty \/ SetCols \/ SetLimits \/ Report
+Next == DoPrint \/ SetSame \/ SetEmpty \/ SetCols \/ SetLimits \/ (\E f \in Fields : RemoveCols(f)) \/ Report
 Spec == Init /\ [][Next]_vars
 
 (* design-level facts *)
